@@ -61,6 +61,7 @@ class _Collector(ast.NodeVisitor):
 
     def __init__(self):
         self.depth = 0
+        self.may_run = 0
         self.sites = []
 
     def visit_FunctionDef(self, node):
@@ -68,9 +69,15 @@ class _Collector(ast.NodeVisitor):
         # of a function is 'inside'
         for d in node.decorator_list:
             self.visit(d)
+        # special methods, properties and other decorated functions may be *executed* by the checker (attribute
+        # lookup runs descriptors, len()/bool() of known objects ...): code placed there is the module's own
+        # code, and an operation that never finishes there is not the checker's non-termination
+        special = (node.name.startswith("__") and node.name.endswith("__")) or bool(node.decorator_list)
         self.depth += 1
+        self.may_run += special
         for s in node.body:
             self.visit(s)
+        self.may_run -= special
         self.depth -= 1
 
     visit_AsyncFunctionDef = visit_FunctionDef
@@ -107,6 +114,7 @@ class _Collector(ast.NodeVisitor):
 
     def generic_visit(self, node):
         if self.depth > 0 and isinstance(node, (ast.expr, ast.stmt)):
+            node._pv_may_run = self.may_run > 0
             self.sites.append(node)
         super().generic_visit(node)
 
@@ -141,7 +149,12 @@ MUTATIONS = ["swap-operands", "star-wrap", "drop-arg", "dup-arg", "const-change"
              "compare-chain", "keyword-arg", "starstar", "ann-assign", "listcomp", "lambda", "yield",
              "fstring-spec", "fstring-nested-spec", "percent-format", "dot-format", "augassign", "slice", "dict-spread",
              "unpack-assign", "del-target", "global-stmt", "async-for", "with-item", "match-stmt", "raise-from",
-             "const-to-list", "const-to-dict", "const-to-set", "const-to-big", "const-to-tuple"]
+             "const-to-list", "const-to-dict", "const-to-set", "const-to-big", "const-to-tuple", "expensive-arith"]
+
+# literal integer arithmetic whose result has more than a million bits (never placed in code that runs at import)
+EXPENSIVE = ["(-3) ** (10 ** 9)", "2 ** (10 ** 30)", "(-2) ** (2 ** 40)", "1 << (10 ** 12)", "(-1) << (10 ** 12)",
+             "(10 ** 30) ** (10 ** 30)", "-(7 ** (10 ** 8))", "(-(10 ** 20)) ** (10 ** 6)", "(3 ** 40) ** (-(-(10 ** 9)))",
+             "(-5).__pow__(10 ** 9)", "int.__pow__(-3, 10 ** 9)", "(10 ** 9).__rpow__(-3)", "(10 ** 12).__rlshift__(-1)"]
 
 
 def mutate(src, choices):
@@ -183,6 +196,8 @@ def applicable(n, name):
         return isinstance(n, ast.Call) and (n.args or name in ("keyword-arg", "starstar"))
     if name in ("const-change", "const-to-list", "const-to-dict", "const-to-set", "const-to-big", "const-to-tuple"):
         return isinstance(n, ast.Constant)
+    if name == "expensive-arith":
+        return isinstance(n, ast.Constant) and not isinstance(n.value, (str, bytes)) and not getattr(n, "_pv_may_run", False)
     if name == "name-change":
         return isinstance(n, ast.Name) and isinstance(n.ctx, ast.Load)
     if name in ("into-finally", "delete-stmt", "dup-stmt"):
@@ -236,6 +251,9 @@ def apply_one(n, name):
         return ast.Set(elts=[c(n), ast.Constant("s")])
     if name == "const-to-tuple":
         return ast.Tuple(elts=[c(n), ast.List(elts=[c(n)], ctx=ast.Load())], ctx=ast.Load())
+    if name == "expensive-arith":
+        k = (getattr(n, "lineno", 0) * 7 + getattr(n, "col_offset", 0)) % len(EXPENSIVE)
+        return ast.parse(EXPENSIVE[k], mode="eval").body
     if name == "const-to-big":
         return ast.BinOp(left=ast.Constant(10), op=ast.Pow(), right=ast.Constant(30))
     if name == "name-change":
